@@ -400,7 +400,10 @@ def run_seed(case, ctx):
     from pbt.runner import _gnpy_root
     from pathlib import Path
     kind = case['kind']
-    L = json.loads((Path(_gnpy_root()) / case['file']).read_text(encoding='utf-8'))
+    path = Path(_gnpy_root()) / case['file']
+    if not path.exists():
+        path = Path('/repo') / case['file']     # scratch copies used for mutation runs hold the package only
+    L = json.loads(path.read_text(encoding='utf-8'))
     documents_moves = case['moves']
     if documents_moves:
         documents.apply_jitter(L, kind, documents_moves)
